@@ -173,6 +173,12 @@ def checkState (st : St) : List String :=
     | some d =>
       let errs := if d.maxC > 0 && b.cpus.length > d.maxC then errs ++ [s!"C02:balloon-above-max-cpus {keyOf b} {b.cpus.length}>{d.maxC}"] else errs
       let errs := if b.cpus.length < d.minC then errs ++ [s!"C02:balloon-below-min-cpus {keyOf b} {b.cpus.length}<{d.minC}"] else errs
+      -- the request-level model's size function (Nri.Balloons.sizeSpec, the subject of `rinv_run`) on the implementation's values
+      let ms : List (String × Nat) := if b.ctrs.isEmpty then [] else [("members", b.req)]
+      let want := sizeSpec ⟨d.minC, d.maxC, d.minB, d.maxB⟩ ms
+      -- (a member removed without a preceding stop stays in the balloon but has no request any more: known finding C09:grant-leak-after-remove-without-stop)
+      let leaked := b.ctrs.any fun id => match getCtr st id with | some c => c.state == "removed-unstopped" | none => false
+      let errs := if b.cpus.length != want && !leaked then errs ++ [s!"C02:balloon-size-differs-from-spec {keyOf b} cpus={b.cpus.length} spec={want} requested={b.req}m members={b.ctrs.length} min={d.minC} max={d.maxC}"] else errs
       let errs := if !b.ctrs.isEmpty && b.cpus.isEmpty then errs ++ [s!"C02:non-empty-balloon-without-cpus {keyOf b}"] else errs
       if !b.ctrs.isEmpty && 1000 * b.cpus.length < b.req then errs ++ [s!"C02:balloon-smaller-than-requests {keyOf b} cpus={b.cpus.length} requested={b.req}m"] else errs
     | none => errs ++ [s!"C02:balloon-of-unknown-type {keyOf b}"]) errs
